@@ -8,9 +8,9 @@ import (
 	"sync/atomic"
 	"testing"
 
-	"github.com/paulsonkoly/chess-3/move"
 	"github.com/paulsonkoly/chess-3/search"
 
+	"verif/harness/conv"
 	"verif/harness/ev"
 	"verif/harness/gen"
 	"verif/harness/ref"
@@ -168,7 +168,7 @@ func game(r *ev.Run, wk int, w *witness, verbose bool) (ok bool) {
 		}
 		var next ref.Move
 		for _, m := range root.Pos.Legal() {
-			if move.Move(m) == ra.Move {
+			if conv.M(m) == ra.Move {
 				next = m
 			}
 		}
